@@ -206,7 +206,7 @@ def rand_dt(rng: random.Random) -> dict:
     y = rng.choice([1, 1999, 2000, 2024, 9999, rng.randint(1, 9999)])
     mo = rng.randint(1, 12)
     dim = [31, 29 if (y % 4 == 0 and y % 100 != 0) or y % 400 == 0 else 28, 31, 30, 31, 30, 31, 31, 30, 31, 30, 31][mo - 1]
-    dev = rng.choice([0x8000, 0, rng.randint(0, 720), 65536 - rng.randint(1, 720)])
+    dev = rng.choice([0x8000, 0, rng.randint(0, 720), 65536 - rng.randint(1, 720), 720, 65536 - 720, 719, 65536 - 719, 60, 65536 - 60])
     return {"y": y, "mo": mo, "d": rng.randint(1, dim), "dow": rng.choice([0xFF, rng.randint(0, 255)]), "h": rng.randint(0, 23), "mi": rng.randint(0, 59),
             "s": rng.randint(0, 59), "hs": rng.choice([0xFF, rng.randint(0, 99)]), "dev": dev, "st": rng.randint(0, 255)}
 
@@ -229,7 +229,11 @@ def randomise(rng: random.Random, m: dict) -> dict:
         elif e["t"] in ("i16", "u16"):
             e["lo"] = rand_reg(rng)[1]
         elif e["t"] in ("vstr", "ostr"):
-            if not (m["meter"] == "kamstrup" and e["obis"] == [1, 1, 96, 1, 1, 255]):
+            if m["meter"] == "aidon" and rng.random() < 0.3:
+                # Aidon visible strings are verbatim over ALL of ASCII (C07: "arbitrary ASCII identification strings"),
+                # including leading/trailing NUL and control characters
+                e["s"] = list(rng.choice([b"\x00", b"6525\x00\x00", b"\x00AB", b" x ", b"\t\r\n", bytes(rng.randrange(128) for _ in range(rng.randint(1, 12)))]))
+            elif not (m["meter"] == "kamstrup" and e["obis"] == [1, 1, 96, 1, 1, 255]):
                 e["s"] = list(rand_str(rng))
             elif rng.random() < 0.5:
                 e["s"] = list(rng.choice([b"685", b"6851", b"684", b"68", b"5685", b"685" + rand_str(rng, 0, 10)]))
@@ -239,6 +243,8 @@ def randomise(rng: random.Random, m: dict) -> dict:
             e["exp"] = rng.randint(-3, 3)
         if m["meter"] == "kamstrup":
             e["nulls"] = rng.choice([0, 0, 0, 1, 2, 4, 8])
+    if m["meter"] == "aidon" and m["form"] == "frame" and rng.random() < 0.5:
+        m["apdu"] = {"kind": rng.choice(["tagged", "untagged"]), "dt": rand_dt(rng)}     # the header clock is not part of an Aidon dictionary
     if m["apdu"]["kind"] != "null":
         m["apdu"]["dt"] = rand_dt(rng)
     if m["meter"] == "aidon":   # any subset / order of the elements
